@@ -127,6 +127,10 @@ func (mockTransport) RoundTrip(req *http.Request) (*http.Response, error) {
 		return mk(200, "application/json", `{"a": 1, "A": 2, "Name": "upper", "name": "lower"}`), nil
 	case "array":
 		return mk(200, "application/json", `[1, 2, {"three": 3}]`), nil
+	case "true":
+		return mk(200, "application/json", `true`), nil
+	case "false":
+		return mk(200, "application/json", `false`), nil
 	case "null":
 		return mk(200, "application/json", `null`), nil
 	case "scalar":
